@@ -1,7 +1,12 @@
 //! Element represents the structure and characteristics of an XML element
 //! it provides enough functionality to allow a simple parsing of an XML document into a tree of Elements
 
+#[cfg(not(feature = "xsg_verif"))]
 use std::collections::{HashMap, HashSet, VecDeque};
+#[cfg(feature = "xsg_verif")]
+use std::collections::{HashSet, VecDeque};
+#[cfg(feature = "xsg_verif")]
+use crate::verif::HashMap;
 
 use crate::{
     necessity::{merge_necessity, Necessity},
@@ -451,6 +456,40 @@ fn add_unique<T: std::cmp::PartialEq>(vec: &mut Vec<T>, data: T) {
     }
 
     vec.push(data);
+}
+
+#[cfg(feature = "xsg_verif")]
+impl<T: std::fmt::Display> Element<T> {
+    /// dump this element including its private fields, only available for verification builds
+    pub fn verif_view(&self) -> crate::verif::ElementView {
+        crate::verif::ElementView {
+            name: self.name.to_string(),
+            has_text: self.text.is_some(),
+            standalone: self.standalone,
+            count: self.count,
+            attributes: self
+                .attributes
+                .iter()
+                .map(|a| {
+                    (
+                        a.inner_t().to_string(),
+                        matches!(a, Necessity::Mandatory(_)),
+                    )
+                })
+                .collect(),
+            position: self.position,
+            children: self
+                .children
+                .iter()
+                .map(|c| {
+                    (
+                        matches!(c, Necessity::Mandatory(_)),
+                        c.inner_t().verif_view(),
+                    )
+                })
+                .collect(),
+        }
+    }
 }
 
 #[cfg(test)]
